@@ -200,16 +200,20 @@ static void check_host_everywhere(const char* mon, const std::string& host) {
 static std::string OCT[256];
 static void init_oct() { for (int i = 0; i < 256; i++) OCT[i] = std::to_string(i); }
 
-// identity case: dotted text of value v. Model evaluated on the text (refurl IPv4 parser + serialiser).
-static uint64_t V4_CASES = 0;
-static inline void v4_identity(const char* url, size_t ulen, size_t hoff, size_t hlen, uint32_t v) {
+// identity case: the canonical dotted text of value v must come back unchanged with host_type IPV4.
+// with_model: additionally the refurl IPv4 parser + serialiser are evaluated on the text and must yield v / the same text
+// (every value of the quick set; in the 2^32 sweep one value of d per (a,b,c), i.e. 2^24 texts).
+static uint64_t V4_CASES = 0, V4_MODEL = 0;
+static inline void v4_identity(const char* url, size_t ulen, size_t hoff, size_t hlen, uint32_t v, bool with_model) {
   std::string_view in(url, ulen), host(url + hoff, hlen);
-  refurl::Ipv4Result mr = refurl::parse_ipv4(host);
-  bool model_ok = !mr.failure && mr.is_ipv4;
-  std::string mh = model_ok ? refurl::serialize_ipv4(mr.addr) : std::string();
-  if (!model_ok || mr.addr != v || mh != host) {  // generator and model must agree that this is value v in canonical form
-    R.count("generator_model_mismatch"); R.exhaustive = false; R.note = "generator/model mismatch at " + std::string(host);
-    return;
+  if (with_model) {
+    refurl::Ipv4Result mr = refurl::parse_ipv4(host);
+    bool model_ok = !mr.failure && mr.is_ipv4;
+    if (!model_ok || mr.addr != v || refurl::serialize_ipv4(mr.addr) != host) {  // generator and model must agree
+      R.count("generator_model_mismatch"); R.exhaustive = false; R.note = "generator/model mismatch at " + std::string(host);
+      return;
+    }
+    V4_MODEL++;
   }
   V4_CASES++;
   auto a = ada::parse<ada::url_aggregator>(in);
@@ -217,15 +221,14 @@ static inline void v4_identity(const char* url, size_t ulen, size_t hoff, size_t
   bool good = a && u && a->host_type == ada::url_host_type::IPV4 && u->host_type == ada::url_host_type::IPV4 &&
               a->get_hostname() == host && std::string_view(u->get_hostname()) == host;
   if (good) return;
-  HO m; m.ok = true; m.hostname = mh; m.kind = 1; m.has_host = true;
   uint64_t ev = EV, nt = NT;
-  check_parse("ipv4-value", "parse-special", std::string(in), nullptr, &m);
+  check_parse("ipv4-value", "parse-special", std::string(in), nullptr, nullptr);   // judged by the full model
   EV = ev; NT = nt;  // counted by the caller
 }
 static void stage_v4_all(int sh, int ns) {
   // all 2^32 addresses, first octet partitioned over the shards
   char buf[32] = "http://";
-  uint64_t n = 0;
+  uint64_t n = 0, c0 = V4_CASES, m0 = V4_MODEL;
   for (int a = 0; a < 256 && !CAPPED; a++) {
     if (a % ns != sh) continue;
     size_t pa = 7; memcpy(buf + pa, OCT[a].data(), OCT[a].size()); pa += OCT[a].size(); buf[pa++] = '.';
@@ -237,14 +240,15 @@ static void stage_v4_all(int sh, int ns) {
         size_t pc = pb; memcpy(buf + pc, OCT[c].data(), OCT[c].size()); pc += OCT[c].size(); buf[pc++] = '.';
         for (int d = 0; d < 256; d++) {
           size_t pd = pc; memcpy(buf + pd, OCT[d].data(), OCT[d].size()); pd += OCT[d].size(); buf[pd] = '/';
-          v4_identity(buf, pd + 1, 7, pd - 7, (uint32_t(a) << 24) | (uint32_t(b) << 16) | (uint32_t(c) << 8) | uint32_t(d));
+          v4_identity(buf, pd + 1, 7, pd - 7, (uint32_t(a) << 24) | (uint32_t(b) << 16) | (uint32_t(c) << 8) | uint32_t(d), d == ((a ^ b ^ c) & 255));
           n++;
         }
       }
     }
   }
   EV += 2 * n; NT += n;
-  R.count("ipv4_identity_values", V4_CASES);
+  R.count("ipv4_identity_values", V4_CASES - c0);
+  R.count("ipv4_identity_values_model_evaluated", V4_MODEL - m0);
   R.count("ipv4_all_2^32_completed_octet_blocks", n >> 24);
 }
 static void stage_v4_quick(int sh, int ns, uint64_t& ord, bool T) {
@@ -263,7 +267,7 @@ static void stage_v4_quick(int sh, int ns, uint64_t& ord, bool T) {
               int oc[4]; int k = 0;
               for (int i = 0; i < 4; i++) oc[i] = (i == p) ? x : (i == q) ? y : (k++ == 0 ? others[o1] : others[o2]);
               std::string url = "http://" + OCT[oc[0]] + "." + OCT[oc[1]] + "." + OCT[oc[2]] + "." + OCT[oc[3]] + "/";
-              v4_identity(url.data(), url.size(), 7, url.size() - 8, (uint32_t(oc[0]) << 24) | (uint32_t(oc[1]) << 16) | (uint32_t(oc[2]) << 8) | uint32_t(oc[3]));
+              v4_identity(url.data(), url.size(), 7, url.size() - 8, (uint32_t(oc[0]) << 24) | (uint32_t(oc[1]) << 16) | (uint32_t(oc[2]) << 8) | uint32_t(oc[3]), true);
               n++;
             }
         }
@@ -308,7 +312,8 @@ static void stage_v4_quick(int sh, int ns, uint64_t& ord, bool T) {
 
 // ------------------------------------------------------------------------------------------------ stage 2: IPv4 forms
 static std::vector<std::string> part_menu(int level) {
-  // level 2 = full V x F; 1 = reduced (for the 8-way comparison at 3 parts); 0 = small (5 parts)
+  // level 2 = full V x F; 3 = medium (all 19 values x {decimal, 0-octal, 0x, 0X+upper digits} + specials: the 4-part product);
+  // 1 = reduced (for the 8-way comparison at 3 parts); 0 = small (5 parts)
   std::vector<uint64_t> V = {0, 1, 7, 8, 9, 10, 99, 100, 255, 256, 257, 65535, 65536, (1ull << 24) - 1, 1ull << 24, (1ull << 32) - 1, 1ull << 32, (1ull << 32) + 1, 100000000000ull};
   if (level == 1) V = {0, 1, 8, 255, 256, 65535, (1ull << 24) - 1, 1ull << 24, (1ull << 32) - 1, 1ull << 32};
   std::vector<std::string> out;
@@ -333,6 +338,7 @@ static std::vector<std::string> part_menu(int level) {
     }
   }
   for (const char* s : {"0x", "0X", "", "x", "g", "0xg", "08", "09", "1g"}) add(s);
+  if (level == 3) for (const char* s : {"%31", "\xef\xbc\x91" /*fullwidth 1*/, "0x1g", "00255", "0x00ff"}) add(s);
   if (level == 2)
     for (const char* s : {"%31", "%32%35%35", "0%78ff", "0%58FF", "-1", "+1", "\xef\xbc\x91" /*fullwidth 1*/, "\xef\xbc\x92\xef\xbc\x95\xef\xbc\x95" /*fullwidth 255*/,
                           "\xef\xbc\x92\xef\xbc\x95\xef\xbc\x96" /*fullwidth 256*/, "\xef\xbc\x90\xef\xbd\x98\xef\xbc\x91\xef\xbc\x90" /*fullwidth 0x10*/})
@@ -362,8 +368,8 @@ static void product(const std::vector<std::string>& P, int k, int sh, int ns, ui
   }
 }
 static void stage_v4_forms(int sh, int ns, uint64_t& ord, bool T, const Args& A) {
-  auto P2 = part_menu(2), P1 = part_menu(1), P0 = part_menu(0);
-  int kfull = int(A.geti("v4parts", T ? 4 : 3));
+  auto P2 = part_menu(2), P3 = part_menu(3), P1 = part_menu(1), P0 = part_menu(0);
+  int kfull = int(A.geti("v4parts", 3));
   uint64_t n_special = 0, n_every = 0;
   auto special = [&](const std::string& h) {
     for (int dot = 0; dot < 2; dot++) {
@@ -377,6 +383,7 @@ static void stage_v4_forms(int sh, int ns, uint64_t& ord, bool T, const Args& A)
     for (int dot = 0; dot < 2; dot++) { check_host_everywhere("ipv4-form", dot ? h + "." : h); n_every++; }
   };
   for (int k = 1; k <= kfull && !CAPPED; k++) product(P2, k, sh, ns, ord, special);
+  if (T && !CAPPED) product(A.get("v4full4") == "1" ? P2 : P3, 4, sh, ns, ord, special);   // 4 parts: medium menu (full menu on request)
   if (!CAPPED) product(P0, 5, sh, ns, ord, special);
   for (int k = 1; k <= 2 && !CAPPED; k++) product(P2, k, sh, ns, ord, everywhere);
   if (!CAPPED) product(P1, 3, sh, ns, ord, everywhere);
@@ -889,6 +896,7 @@ int main(int argc, char** argv) {
   if (CAPPED) { R.exhaustive = false; if (R.note.empty()) R.note = "host-enum: deadline reached; remaining sub-stages skipped or partial"; }
   R.evaluations = EV; R.nontrivial = NT;
   extra["ipv4_part_menu_size"] = std::to_string(part_menu(2).size());
+  extra["ipv4_part_menu_4parts"] = std::to_string(part_menu(3).size());
   extra["ipv4_part_menu_reduced"] = std::to_string(part_menu(1).size());
   extra["ipv4_part_menu_5parts"] = std::to_string(part_menu(0).size());
   R.sample(JObj().str("input", "http://0x7f.1/").str("expect", "hostname 127.0.0.1 kind IPV4; foo://0x7f.1/ keeps 0x7f.1 kind DEFAULT").done());
